@@ -17,7 +17,7 @@
    CheckWriteExec.v, CheckWriteWitness.v. *)
 From Coq Require Import ZArith List Bool Sorting.Sorted Permutation.
 From Knut Require Import Model.Str Model.Dec Model.Account Model.Ledger Model.Journal Model.Check Model.Cli
-     Model.CheckWrite Spec.WellformedSpec Spec.CheckWriteSpec
+     Model.Source Model.CheckWrite Proofs.CheckLemmas Proofs.CheckProofs Proofs.DeterminismProofs Spec.WellformedSpec Spec.CheckWriteSpec
      Proofs.CheckMain Proofs.OrderCmd Proofs.CheckWriteBase Proofs.CheckWriteComplete Proofs.CheckWriteAccepted
      Proofs.CheckWriteSorted Proofs.CheckWriteExec Proofs.CheckWriteWitness.
 Import ListNotations.
@@ -102,6 +102,31 @@ Proof.
   intros sds1 sds2 P H. split; [exact (check_write_assertions_perm sds1 sds2 P H)|exact (check_write_cmd_perm sds1 sds2 P H)].
 Qed.
 Print Assumptions C04_write_order_irrelevant.
+
+(* Map iteration order (C06_map_order for this command): Checker.dayEnd ranges over ch.quantities, a Go map, and sorts
+   the balances with assertion.CompareBalance.  For every quantity map a run of the checker can reach (sorted keys,
+   well-formed entries: Proofs/CheckProofs.v [Inv]) and every enumeration l of it, the sorted slice is the same. *)
+Theorem C04_write_map_order : forall m l,
+  CheckLemmas.keys_sorted m -> (forall x, In x m -> CheckProofs.entry_ok x) -> Permutation l m ->
+  Str.sort_by bal_ltb (map entry_balance l) = day_end_balances m.
+Proof. exact day_end_map_order. Qed.
+Print Assumptions C04_write_map_order.
+
+(* File arrival order (C06): the command is a function of the loaded journal, so C06_arrival / C06_arrival_files /
+   C06_arrival_classes apply to it as to every command of C06_commands: tagged directive lists that build the same
+   journal give the same result. *)
+Theorem C04_write_factor : forall sds, check_write_cmd sds = cbind (load sds) check_write_of.
+Proof. exact check_write_factor. Qed.
+Print Assumptions C04_write_factor.
+
+Theorem C04_write_arrival : forall fs1 fs2 : list (list (Source.src * directive)),
+  Permutation fs1 fs2 ->
+  (forall f g x y, In f fs1 -> In g fs1 -> In x f -> In y g -> Source.s_path (fst x) = Source.s_path (fst y) -> f = g) ->
+  Source.run_sorted check_write_of (concat fs1) = Source.run_sorted check_write_of (concat fs2).
+Proof.
+  intros fs1 fs2 P H. unfold Source.run_sorted. rewrite (DeterminismProofs.arrival_files fs1 fs2 P H). reflexivity.
+Qed.
+Print Assumptions C04_write_arrival.
 
 (* ------------------------------------------------------------------ examples (vm_compute) *)
 
